@@ -97,6 +97,51 @@ def run(ctx) -> None:
         rep.add("C19.R1", f"Graph.__init__->{k}", ok, init.loc(), f"every normal exit of the constructor passes {k}()" if ok else f"the constructor can complete without {k}()")
     # _normalize_edges when edges given
     ne = [n for n in walk_local(init.node) if isinstance(n, ast.Assign) and isinstance(n.value, ast.IfExp) and "_normalize_edges" in src(n.value.body) and src(n.value.test) == "edges is not None"]
+    # ... and inside it every endpoint, however it is spelled (a name or a node object), is looked up in the graph's
+    # node table on every path that records the edge: a probe of self._nodes evaluated unconditionally (not only in the
+    # 'it is a string' arm of a conditional expression) for the source and for the target
+    nef = db.cls("graph.core.Graph").methods.get("_normalize_edges")
+    if nef is None:
+        raise AnalysisError("Graph._normalize_edges vanished")
+    ncfg_ = ctx.cfg(nef)
+    appends = [n for n in ncfg_.nodes if any(isinstance(c.func, ast.Attribute) and c.func.attr == "append" for c in ncfg_.calls_at(n))]
+    loops_ = [n for n in ncfg_.nodes if n.kind == "for"]
+
+    def _unconditional(x: ast.AST, root: ast.AST) -> bool:
+        from sa.db import ancestors as _anc
+
+        for a_ in _anc(x):
+            if a_ is root:
+                break
+            if isinstance(a_, ast.IfExp) and not contains(a_.test, x):
+                return False
+            if isinstance(a_, ast.BoolOp) and a_.values and not contains(a_.values[0], x):
+                return False
+        return True
+
+    probes = []
+    for n in ncfg_.nodes:
+        if n.ast is None or n.kind not in ("stmt", "test"):
+            continue
+        hit = None
+        for x in ast.walk(n.ast):
+            is_tbl = lambda e: isinstance(e, ast.Attribute) and e.attr == "_nodes"
+            if isinstance(x, ast.Compare) and len(x.ops) == 1 and isinstance(x.ops[0], (ast.In, ast.NotIn)) and is_tbl(x.comparators[0]):
+                hit = x
+            elif isinstance(x, ast.Call) and isinstance(x.func, ast.Attribute) and x.func.attr == "get" and is_tbl(x.func.value):
+                hit = x
+            elif isinstance(x, ast.Subscript) and is_tbl(x.value) and isinstance(x.ctx, ast.Load):
+                hit = x
+            if hit is not None and _unconditional(hit, n.ast):
+                probes.append(n)
+                break
+            hit = None
+    ok_ep = bool(appends) and bool(loops_) and len(probes) >= 2
+    if ok_ep:
+        start_ = [t for t, l, _ in loops_[0].succ if l == "T"][0]
+        on_all = [p_ for p_ in probes if all(all_paths_pass(start_, ap, [p_], lambda a, b, l, i: l != "exc") for ap in appends)]
+        ok_ep = len(on_all) >= 2
+    rep.add("C19.R1", "Graph._normalize_edges:endpoints-looked-up", ok_ep, nef.loc(), "both endpoints of every recorded edge are looked up in the node table, whatever their spelling" if ok_ep else "an edge can be recorded without both endpoints having been looked up in the graph's node table on that path (e.g. a node *object* that is not in the graph is taken at its word): the edge names an unknown node, networkx creates a phantom node and the real consumer silently loses its edge")
     rep.add("C19.R1", "Graph.__init__->_normalize_edges", len(ne) == 1, init.loc(), "explicit edges are normalised (and validated) whenever they are given" if ne else "explicit edges are not passed through _normalize_edges whenever given")
     # _validate -> validate_graph with the graph's own data
     v = g.methods["_validate"]
